@@ -155,7 +155,10 @@ def read_cgsmiles(pattern):
         ring_marker = ""
         multi_ring = False
         ring_bond_order = default_bond_order
-        for rdx, token in enumerate(pattern[stop:]):
+        # a %nn marker is only complete when the next character is not
+        # a digit; the blank makes sure this also happens for a marker
+        # at the very end of a pattern that is not enclosed in braces
+        for rdx, token in enumerate(pattern[stop:] + " "):
             if multi_ring and not token.isdigit():
                 ring_marker = int(ring_marker[1:])
                 if ring_marker in cycle:
